@@ -203,7 +203,7 @@ class Session:
             elif k == "set_used_res_idx":
                 idx = sorted(set(i % self.nchains for i in op["idx"]))
                 amp.set_used_res(idx)
-                self.S = idx
+                self.S = list(idx)
             elif k == "set_used_res_only":
                 names = self.res_args(op["idx"])
                 dg.set_used_res(names, only=True)
@@ -213,7 +213,7 @@ class Session:
                 form = sum(op["idx"]) % 4
                 if form == 1:
                     amp.set_used_chains(tuple(idx))
-                    self.S = idx
+                    self.S = list(idx)
                 elif form == 2:
                     # a lazy iterable whose predicate reads the CURRENT selection while it is consumed
                     cur = list(self.S)
@@ -232,12 +232,25 @@ class Session:
                     except ValueError:
                         self.log.count("fault.selection_argument_raised")
                 else:
-                    amp.set_used_chains(idx)
-                    self.S = idx
+                    # the caller keeps its list: the selection is a copy - later library calls do not edit the
+                    # caller's list, later edits of the list do not change the selection
+                    mine = list(idx)
+                    amp.set_used_chains(mine)
+                    self.S = list(idx)
+                    self.kept = (mine, list(idx))
+                    if sum(op["idx"]) % 8 == 4:
+                        mine.reverse()
+                        mine.append((idx[0] + 1) % self.nchains)
+                        self.kept = None
+                        self.log.count("probe.caller_edited_its_list_after_selecting")
             elif k == "add_used_chains":
                 idx = sorted(set(i % self.nchains for i in op["idx"]))
                 dg.add_used_chains(idx)
                 self.S = self.S + [i for i in idx if i not in self.S]
+                kept = getattr(self, "kept", None)
+                if kept is not None and kept[0] != kept[1]:
+                    self.log.fail("selection", "add_used_chains|caller-list-edited", "add_used_chains changed the list object the caller had passed to set_used_chains earlier: %s -> %s" % (kept[1], kept[0]), step=self.step)
+                    raise Failure()
             elif k == "reset":
                 amp.set_used_chains(list(range(self.nchains)))
                 self.S = list(range(self.nchains))
